@@ -70,6 +70,17 @@ fn main() {
 		props::c15::child(args[2].parse().unwrap_or(0), &args[3]);
 		return;
 	}
+	if args.len() >= 3 && args[1] == "gen-fixtures" {
+		let dir = &args[2];
+		let g256 = openssl::ec::EcGroup::from_curve_name(openssl::nid::Nid::X9_62_PRIME256V1).unwrap();
+		let g384 = openssl::ec::EcGroup::from_curve_name(openssl::nid::Nid::SECP384R1).unwrap();
+		let w = |n: &str, k: openssl::pkey::PKey<openssl::pkey::Private>| std::fs::write(format!("{}/{}", dir, n), k.private_key_to_pkcs8().unwrap()).unwrap();
+		w("ed25519.pk8", openssl::pkey::PKey::generate_ed25519().unwrap());
+		w("p256.pk8", openssl::pkey::PKey::from_ec_key(openssl::ec::EcKey::generate(&g256).unwrap()).unwrap());
+		w("p384.pk8", openssl::pkey::PKey::from_ec_key(openssl::ec::EcKey::generate(&g384).unwrap()).unwrap());
+		w("rsa2048.pk8", openssl::pkey::PKey::from_rsa(openssl::rsa::Rsa::generate(2048).unwrap()).unwrap());
+		return;
+	}
 	let seed: u64 = std::env::var("VERIF_SEED").ok().and_then(|s| s.parse::<i64>().ok()).map(|v| v as u64).unwrap_or(20260929);
 	let rsa_fixture = keys::rsa_pkcs8(2048);
 	let ed_key = Arc::new(keys::local_key(&rcgen::PKCS_ED25519, &rsa_fixture));
@@ -80,6 +91,7 @@ fn main() {
 		"C01" => props::c01::run(&mut ctx),
 		"C15" => props::c15::run(&mut ctx),
 		"C14" => props::c14::run(&mut ctx),
+		"C16" => props::c16::run(&mut ctx),
 		#[cfg(not(feature = "nocrypto"))]
 		"C11" => props::c11::run(&mut ctx),
 		#[cfg(not(feature = "nocrypto"))]
